@@ -14,10 +14,6 @@ FAM = {
     what="MEAN over the W axis only of a tensor with H > 1 (same root cause as F11): the depthwise operator it is lowered to has an OFM depth of H*C while weights and scale records exist for C channels only; values are wrong and the scale/weight fetch runs past the encoded range",
     ctx=dict(requires_layers=["MEAN"], max_layers=12),
     sigs={"C01": ["weight_stream_malformed", "value_mismatch"], "C10": ["weight_stream_malformed", "value_mismatch"], "C08": ["weight_stream_malformed", "scale_record_count"]}),
- "F09-odd-stripe-nearest-upscale": dict(
-    what="a 2x nearest-neighbour upscaling step (RESIZE_NEAREST_NEIGHBOR lowered to pool operations) striped in a cascade with an odd OFM stripe height: IFM_HEIGHT0 is floor(h/2) although ceil(h/2)+ rows are fetched, so the last row comes through an unused tile base (address 0)",
-    ctx=dict(requires_layers=["RESIZE_NEAREST_NEIGHBOR"], max_layers=8, kind_any=["POOL/AVERAGE", "DMA", None]),
-    sigs={"C02": ["out_of_extent"], "C03": ["uninit_read", "foreign_read", "foreign_tensor_read"], "C04": ["reads_from_divergence", "async_uninit_read", "inflight_conflict"], "C01": VAL, "C10": VAL}),
 }
 FIXED = [
  "fixed: property=C13 54fac24 every network with weights aborted with OverflowError (int32 memory histogram minus 1<<32 under NumPy 2), live_range.py:149 / scheduler.py:667",
@@ -65,6 +61,7 @@ FIXED = [
  "fixed: property=C03 0eb36a3 MEAN in front of a bypassed RESHAPE: the int32 partial-sum tensors took the reshaped shape of the OFM tensor, the depthwise convolution described its IFM with it and read undefined bytes (same class as 92fd28e) (findings/FX-mean-behind-bypassed-reshape.C03.json)",
  "fixed: property=C12 c7adebd two CPU-resident memory only operators in a row (RESHAPE ; RESHAPE at the end of a network) were packed into one pass; the tensor between them got no live range and was published at arena offset 0 on top of a live tensor (findings/FX-two-cpu-reshapes-unallocated.C12.json)",
  "fixed: property=C03 a42dec3 PRELU (general lowering to MIN/MUL/RELU/ADD or MUL/MAX) in front of a bypassed RESHAPE: new operations and intermediate tensors took the reshaped shape of the OFM tensor (same class as 92fd28e); reads of undefined bytes and of bytes written as another tensor (findings/FX-prelu-behind-bypassed-reshape.C03.json)",
+ "fixed: property=C10 56354b4 (was known finding F09) a 2x nearest-neighbour upscaling operation at the end of a cascade was striped with odd stripe heights: later stripes start on an odd OFM row (the hardware pairs rows from the stripe start, wrong rows are replicated) and the last IFM row of a stripe lies outside its IFM box (fetched through an unused tile base: undefined bytes, accesses outside the extent, DMA/kernel conflicts) (findings/FX-F09-odd-stripe-nearest-upscale.C03.json, .C04-dma.json, FX-F09-odd-final-stripe-nearest-upscale.C01.json)",
 ]
 EXTRA = [
  dict(id="F07-pad-then-mean", property="C13", status="known",
